@@ -285,6 +285,15 @@ func CheckCacheStep(capacity int, before []*mocrelay.Event, e *mocrelay.Event, f
 		why := "event is neither a duplicate, nor older than the retained version of its address, nor suppressed by a deletion request, but was reported as not new"
 		return bad(class, "step/new-reported-old", why)
 	}
+	if e.Kind == 5 && References(e, e) {
+		// a request that names itself: whether it stays ("the request itself is kept") or goes
+		// ("removes the events it references") is left open; its other targets go either way
+		without := minus(base, map[string]bool{e.ID: true})
+		if len(without) <= capacity && sameIDs(without, after) {
+			return StepVerdict{true, "", "", class + "+self-reference-removed"}
+		}
+		class += "+self-reference"
+	}
 	if len(base) <= capacity {
 		if !sameIDs(base, after) {
 			return bad(class, classifyDiff(before, e, base, after), "after inserting "+e.ID[:8]+":"+explainDiff(base))
